@@ -137,7 +137,14 @@ def gen_literal(rng, mode, maxn=6):
             ch = rng.choice(PLAIN)
             out.append((ch, ch))
         elif mode == "f":
-            out.append(rng.choice(ESC_ATOMS))
+            if rng.random() < 0.12:       # an escaped backslash directly before N and a brace / field
+                out += [("\\\\", "\\")] * rng.choice([1, 1, 2]) + [("N", "N")]
+                if rng.random() < 0.5:
+                    out.append(("{{", "{"))
+                else:
+                    break                 # the literal ends here, a field follows
+            else:
+                out.append(rng.choice(ESC_ATOMS))
         else:
             atom = rng.choice(RAW_ATOMS + ([('"', '"'), ("]", "]")] if mode == "br" else []))
             out.append(atom)
@@ -211,7 +218,7 @@ def gen_spec(rng, ty, depth, mode="f"):
         lit(rng.choice(SPEC_LIT[ty]) if rng.random() < 0.3 else
             {"int": rng.choice("dxXob"), "float": rng.choice("feEgG%"), "str": "s",
              "complex": rng.choice("feg")}[ty])
-    if mode == "f" and rng.random() < 0.04:
+    if mode == "f" and rng.random() < 0.12:
         al = rng.choice("<>^")                                       # named escape as fill character
         parts[:0] = [["lit", "\\N{BULLET}", "\\N{BULLET}"], ["lit", al, al]]
     return parts
@@ -312,8 +319,73 @@ MALFORMED = [
 ]
 
 
+# Deterministic regression inputs: the witnesses of the repaired reader mechanisms (known_findings.json,
+# status fixed) with variations of neighbours, position and field features.
+def _fld(hy, py=None, ty="int", conv=None, debug=None, spec=None):
+    return ["field", {"e": [hy, py or hy, ty, py is None], "conv": conv, "debug": debug, "spec": spec,
+                      "ws": ["", "", ""]}]
+
+
+def _lit(*atoms):
+    return ["lit", [list(a) if isinstance(a, tuple) else [a, a] for a in atoms]]
+
+
+BS, LB, RB, BUL = ("\\\\", "\\"), ("{{", "{"), ("}}", "}"), ("\\N{BULLET}", "\u2022")
+_NB = ["lit", "\\N{BULLET}", "\\N{BULLET}"]
+
+
+def _sl(text):
+    return ["lit", text, text]
+
+
+REGRESS = {
+    "fstring-escaped-backslash-before-N-brace": [
+        [_lit(BS, "N", LB, "x", RB)],                               # f"\\N{{x}}"
+        [_lit(BS, "N"), _fld("a")],                                 # f"\\N{a}"
+        [_lit(BS, BS, "N", LB)],
+        [_lit("a", BS, "N"), _fld("s", ty="str", conv="r"), _lit("z")],
+        [_lit(BS, "N"), _fld("x", ty="float", spec=[_sl(">"), _sl("9"), _sl(".2f")])],
+        [_lit(BUL, BS, "N", LB, RB)],
+        [_lit(BS, BS, BS, "N"), _fld("a", debug=["", " ", ""])],
+        [_fld("a"), _lit(BS, "N", LB), _fld("b")],
+        [_lit(BS, BUL)],                                            # escaped backslash, then a real \N{...}
+        [_lit(("\\n", "\n"), BS, "N"), _fld("(+ a 1)", "a + 1")],
+        [_lit(BS, "N", LB, "BULLET", RB)],
+        [_lit(BS, "N"), _fld("s", ty="str", spec=[["field", _fld("fill")[1]], _sl("^"), ["field", _fld("w")[1]]])],
+    ],
+    "fspec-named-escape": [
+        [_fld("1", spec=[_NB, _sl(">5")])],                         # f"{1 :\N{BULLET}>5}"
+        [_fld("a", spec=[_NB, _sl(">"), ["field", _fld("w")[1]]])],
+        [_fld("s", ty="str", conv="r", spec=[_NB, _sl("^9")])],
+        [_fld("x", ty="float", spec=[_NB, _sl("<"), ["field", _fld("w")[1]], _sl("."), ["field", _fld("p")[1]], _sl("f")])],
+        [_lit("a"), _fld("a", spec=[_NB, _sl(">5")]), _lit("z", RB)],
+        [_fld("a", spec=[_NB, _sl(">5")]), _fld("b", spec=[_NB, _sl("<4")])],
+        [_fld("a", debug=["", " ", " "], spec=[_NB, _sl("^7")])],
+        [_fld("cobj", ty="C", spec=[_sl("a"), _NB, _sl("b"), _NB])],
+        [_fld("s", ty="str", spec=[["lit", "\\N{LATIN SMALL LETTER X}", "\\N{LATIN SMALL LETTER X}"], _sl(">4")])],
+        [_lit(BUL), _fld("a", spec=[_NB, _sl(">3")]), _lit(BUL)],
+        [_fld("t", ty="str", conv="a", spec=[_NB, _sl(">"), ["field", dict(_fld("w")[1], conv="s")]])],
+        [_lit(BS, "N"), _fld("a", spec=[_NB, _sl("=6")])],
+    ],
+}
+REGRESS_TOTAL = {k: len(v) for k, v in REGRESS.items()}
+
+
+def gate(tot, classes, extra, tier):
+    missing = [k for k, n in REGRESS_TOTAL.items() if classes.get("regress:" + k, 0) < n]
+    if missing:
+        return "regression-inputs-did-not-all-run:" + ",".join(missing)
+
+
 def cases(seed, tier, shard, nshards):
     n = 0
+    for key, structs in REGRESS.items():
+        for parts in structs:
+            n += 1
+            if n % nshards == shard:
+                struct = {"mode": "f", "parts": parts}
+                yield {"kind": "pair", "regress": key, "struct": struct,
+                       "hy": render(struct, "hy"), "py": render(struct, "py")}
     for cls, bodies in MALFORMED:
         for body in bodies:
             for wrap in ('f"%s"', "#[f[%s]f]", 'rf"%s"', 'f"ok {b} %s"'):
@@ -480,7 +552,8 @@ def run_case(case):
                              ("lit-backslash", "\\"), ("lit-newline", "\n")):
                 if pat in hy_lit:
                     feats.add(tag)
-    classes = ["mode:" + struct["mode"]] + sorted(feats)
+    classes = ["mode:" + struct["mode"]] + (["regress:" + case["regress"]] if "regress" in case else []) \
+        + sorted(feats)
     status, why = compare(case["hy"], case["py"])
     if status is None:
         return {"ok": None, "classes": ["skip:python-twin-does-not-compile"]}
